@@ -16,7 +16,7 @@
 From Coq Require Import List ZArith Bool.
 From V Require Import Gen.Params Lib.Hex SendStream.Model SendStream.ProofsBase SendStream.ProofsInv
   SendStream.ProofsCov SendStream.ProofsOut SendStream.ProofsFin SendStream.ProofsCnt SendStream.Theorems StreamE2E.Model StreamE2E.Compose
-  StreamE2E.DgModel StreamE2E.DgProofs.
+  StreamE2E.DgModel StreamE2E.DgProofs StreamE2E.PackModel StreamE2E.PackProofs.
 Import ListNotations.
 Open Scope Z_scope.
 
@@ -121,6 +121,34 @@ Theorem C01_datagram_at_most_once :
   zlen (sendQ q) <= dgMaxSendQueueLen /\ zlen (rcvQ q) <= dgMaxRcvQueueLen.
 Proof. exact datagram_at_most_once. Qed.
 Print Assumptions C01_datagram_at_most_once.
+
+(** Packet layer (model PackModel of packetPacker.composeNextPacket + the 1-RTT retransmission queue +
+    the datagram queue; any list of SendDatagram / compose / packet lost / packet acked; the frames
+    returned by the framer and the ack source are per-call oracles, the framer never returning
+    DATAGRAM frames): a DATAGRAM frame in a packet never carries a handler, the retransmission queue
+    never holds one, and the DATAGRAM payloads on the wire embed into the sequence popped from the
+    queue: every datagram accepted by SendDatagram is put into at most one packet, in order, whatever
+    is declared lost. *)
+Theorem C01_datagram_never_retransmitted :
+  forall ops : list pop_,
+  Forall wf_op ops ->
+  let s := fst (prun pk0 ops) in
+  let pkts := sent_of (combine ops (snd (prun pk0 ops))) in
+  (forall pkt f, In pkt pkts -> In f pkt -> is_dg (pf_kind f) = true -> pf_h f = 0) /\
+  (forall kl, In kl (p_retx s) -> is_dg (fst kl) = false) /\
+  subseq (dgs_of pkts) (gPopped (p_dq s)) /\
+  gAdded (p_dq s) = gPopped (p_dq s) ++ sendQ (p_dq s).
+Proof. exact datagram_never_retransmitted. Qed.
+Print Assumptions C01_datagram_never_retransmitted.
+
+(* a datagram shares its packet with a control frame from the framer; the packet is lost; only the
+   control frame comes back *)
+Example C01_datagram_never_retransmitted_nonvacuous :
+  let ops := [KDq (DAdd [7; 7]); KCompose 1200 true None true [mkPF (KCtrl 5) 3 0]; KLost 0; KCompose 1200 true None false []] in
+  Forall wf_op ops /\
+  snd (prun pk0 ops) = [[]; [mkPF (KDg [7; 7]) 4 0; mkPF (KCtrl 5) 3 1]; []; [mkPF (KCtrl 5) 3 1]].
+Proof. split; [repeat constructor|vm_compute; reflexivity]. Qed.
+Print Assumptions C01_datagram_never_retransmitted_nonvacuous.
 
 Example C01_datagram_nonvacuous :
   let r := drun dq0 [DHandle [1]; DHandle [2]; DAdd [9]; DReceive; DPeek; DPop; DReceive; DReceive] in
